@@ -10,7 +10,7 @@ The endpoint interfaces in this module provide endpoint interfaces suitable for
 connecting streams to USB endpoints.
 """
 
-from amaranth       import Elaboratable, Module, Signal
+from amaranth       import Elaboratable, Module, Mux, Signal
 
 from ..endpoint     import EndpointInterface
 from ...stream      import StreamInterface, USBOutStreamBoundaryDetector
@@ -317,6 +317,10 @@ class USBStreamOutEndpoint(Elaboratable):
         # Stores whether we're in the middle of a transfer.
         transfer_active = Signal()
 
+        # Stores whether the packet we're receiving ends in a full-size packet, i.e. whether the
+        # transfer will still be active once that packet has been accepted.
+        next_active = Signal()
+
         #
         # Receiver logic.
         #
@@ -357,6 +361,11 @@ class USBStreamOutEndpoint(Elaboratable):
         should_skip              = targeting_endpoint & ~expected_pid_match
 
         full_packet              = rx_cnt == self._max_packet_size - 1
+
+        # A new packet is starting on the raw receive stream while the boundary detector is still idle.
+        new_packet               = interface.rx.valid & ~rx.valid
+        # Whether the packet we're responding to is a full-size one (a zero-length packet is not).
+        packet_is_full           = Mux(fifo.write_en & rx_last, full_packet, next_active)
 
         m.d.comb += [
 
@@ -405,22 +414,34 @@ class USBStreamOutEndpoint(Elaboratable):
         with m.If(fifo.write_en):
             m.d.usb += rx_cnt.eq(rx_cnt + 1)
 
-            # Set the transfer active flag depending on whether this is a full packet.
+            # Remember whether this packet's last byte completes a full packet; the transfer active
+            # flag follows only once the packet has actually been accepted (see below).
             with m.If(rx_last):
-                m.d.usb += transfer_active.eq(full_packet)
+                m.d.usb += next_active.eq(full_packet)
 
-        # We'll set the overflow flag if we're receiving data we don't have room for.
+        # We'll set the overflow flag if we're receiving data we don't have room for...
         with m.If(data_is_lost):
             m.d.usb += overflow.eq(1)
 
-        # We'll clear the overflow flag and byte counter when the packet is done.
-        with m.Elif(fifo.write_commit | fifo.write_discard):
-            m.d.usb += overflow.eq(0)
+        # ... and keep it until the next packet starts: it decides both whether the packet is committed
+        # and -- possibly many cycles later -- how we respond to it.
+        with m.Elif(new_packet):
+            m.d.usb += [
+                overflow     .eq(0),
+                next_active  .eq(0),
+            ]
+
+        # We'll clear the byte counter when the packet is done.
+        with m.If(fifo.write_commit | fifo.write_discard):
             m.d.usb += rx_cnt.eq(0)
 
-        # We'll toggle our DATA PID each time we issue an ACK to the host [USB 2.0: 8.6.2].
+        # We'll toggle our DATA PID each time we issue an ACK to the host [USB 2.0: 8.6.2]; that is also
+        # the moment the packet becomes part of the transfer.
         with m.If(data_response_requested & data_accepted):
-            m.d.usb += expected_data_toggle.eq(~expected_data_toggle)
+            m.d.usb += [
+                expected_data_toggle  .eq(~expected_data_toggle),
+                transfer_active       .eq(packet_is_full),
+            ]
 
         # If there has been a ClearFeature(ENDPOINT_HALT) request address to this endpoint...
         clear_endpoint_halt = \
